@@ -96,7 +96,27 @@ pub struct Cfg { pub par: usize, pub dd: u8, pub cache: bool, pub nodup: bool, p
 
 pub struct Outcome { pub exact: bool, pub value: Option<isize>, pub lb: isize, pub ub: isize, pub sol: Option<Vec<Decision>>, pub polls: usize }
 
+/// watchdog for the multi-threaded runs: a run that does not return within 30 s is a deadlock / lost wake-up (C04): the process
+/// prints the configuration and exits with status 1 (a hung worker cannot be joined, so the process is left from the watchdog)
+struct Watchdog { done: Arc<std::sync::atomic::AtomicBool> }
+impl Watchdog {
+    fn arm(what: String) -> Watchdog {
+        let done = Arc::new(std::sync::atomic::AtomicBool::new(false));
+        let d2 = done.clone();
+        std::thread::spawn(move || {
+            for _ in 0..300 { std::thread::sleep(std::time::Duration::from_millis(100)); if d2.load(AO::SeqCst) { return; } }
+            println!("failing run found: maximize() did not return within 30 s (C04: deadlock / lost wake-up / worker crash)");
+            println!("  violated: C04: the parallel solver does not terminate");
+            println!("  run: {what}");
+            std::process::exit(1);
+        });
+        Watchdog { done }
+    }
+}
+impl Drop for Watchdog { fn drop(&mut self) { self.done.store(true, AO::SeqCst); } }
+
 pub fn run(t: &Table, c: Cfg, primal: Option<(isize, Vec<Decision>)>) -> Outcome {
+    let _wd = if c.par > 0 { Some(Watchdog::arm(format!("config {:?} instance {:?}", c, t))) } else { None };
     let rlx = TRelax { t };
     let rk = TRank;
     let w = FixedWidth(c.width);
